@@ -258,6 +258,10 @@ class Aligner:
                     rconv = sub.conv_of_var.get(r.var, rconv)
         wconv = w.src.conv if w.src else "identity"
         ok = (wconv == rconv) or (wconv == "enum" and r.ukind == "enumerated" and rconv == "identity")
+        if ok and (w.modes or r.modes) and w.modes != r.modes:
+            # a mode switch of the primitive codec used on one side only (read_integer(signed=False) against a plain write_integer)
+            ok = False
+            wconv, rconv = f"{wconv}({w.modes})", f"{rconv}({r.modes})"
         run.ob("W6-inverse-conversion", ok, dict(label, writer_conv=wconv, reader_conv=rconv))
         if not ok:
             self.fail("W6-inverse-conversion", cls, f"{w.src.path if w.src else ''}: {wconv} vs {rconv}", f"{short(cls)}: `{w.src.path if w.src else ''}` is written with conversion {wconv} but read with {rconv}", w)
